@@ -1,0 +1,132 @@
+//go:build verif
+
+package kernel
+
+import (
+	"github.com/MixinNetwork/mixin/common"
+	"github.com/MixinNetwork/mixin/config"
+	"github.com/MixinNetwork/mixin/crypto"
+	"github.com/MixinNetwork/mixin/storage"
+)
+
+// Verification hooks for the round checks C18 (round hash), C19 (live round
+// validation) and C20 (round transitions).  Thin wrappers only: every decision
+// is taken by the unmodified kernel code.
+
+// ---- C18 / C19: live round -----------------------------------------------------
+
+func VerifC19NewCacheRound(nodeId crypto.Hash, number uint64) *CacheRound {
+	return &CacheRound{
+		NodeId:     nodeId,
+		Number:     number,
+		References: &common.RoundLink{},
+		index:      newRoundIndexCache(),
+	}
+}
+
+func (c *CacheRound) VerifC19Validate(s *common.Snapshot, add bool) error {
+	return c.validateSnapshot(s, add)
+}
+
+func (c *CacheRound) VerifC19AsFinal() *FinalRound {
+	return c.asFinal()
+}
+
+// ---- C20: chains over a real store -----------------------------------------------
+
+// VerifC20NewNode builds a Node with one established chain per id.  The durable
+// ROUND records must already be in the store; the in-memory link mirror is read
+// from the store the way loadState does it.
+func VerifC20NewNode(store storage.Store, ids []crypto.Hash, genesis []bool, finals []*FinalRound, caches []*CacheRound) (*Node, []*Chain) {
+	node := &Node{
+		chains:          &chainsMap{m: make(map[crypto.Hash]*Chain)},
+		genesisNodesMap: make(map[crypto.Hash]bool),
+		persistStore:    store,
+	}
+	var cnodes []*CNode
+	for i, id := range ids {
+		cn := &CNode{IdForNetwork: id, State: common.NodeStateAccepted, Timestamp: uint64(i)}
+		cnodes = append(cnodes, cn)
+		if genesis[i] {
+			node.genesisNodesMap[id] = true
+			node.genesisNodes = append(node.genesisNodes, id)
+		}
+	}
+	node.IdForNetwork = ids[0]
+	node.allNodesSortedWithState = cnodes
+	seq := []*NodeStateSequence{{Timestamp: 0, NodesWithoutState: cnodes}}
+	node.nodeStateSequences = seq
+	node.acceptedNodeStateSequences = seq
+
+	chains := make([]*Chain, len(ids))
+	for i, id := range ids {
+		caches[i].index = newRoundIndexCache()
+		state := &ChainState{
+			CacheRound:   caches[i],
+			FinalRound:   finals[i],
+			RoundHistory: []*FinalRound{finals[i].Copy()},
+			RoundLinks:   make(map[crypto.Hash]uint64),
+		}
+		for _, other := range ids {
+			if other == id {
+				continue
+			}
+			link, err := store.ReadLink(id, other)
+			if err != nil {
+				panic(err)
+			}
+			state.RoundLinks[other] = link
+		}
+		chain := &Chain{node: node, ChainId: id, persistStore: store, State: state}
+		chains[i] = chain
+		node.chains.m[id] = chain
+	}
+	return node, chains
+}
+
+func (chain *Chain) VerifC20AddSnapshot(s *common.Snapshot) error {
+	err := chain.State.CacheRound.validateSnapshot(s, true)
+	if err == nil {
+		chain.State.CacheRound.index.Store(s.Hash)
+	}
+	return err
+}
+
+// VerifC20Start calls startNewRoundAndPersist with the chain's live cache round,
+// as prepareFinalization does.
+func (chain *Chain) VerifC20Start(references *common.RoundLink, timestamp uint64, finalized bool) (*CacheRound, *FinalRound, bool, error) {
+	return chain.startNewRoundAndPersist(chain.State.CacheRound, references, timestamp, finalized)
+}
+
+// VerifC20UpdateEmptyHead calls updateEmptyHeadRoundAndPersist with a copy of the
+// chain state, as cosiHandleFinalization does.
+func (chain *Chain) VerifC20UpdateEmptyHead(references *common.RoundLink, timestamp uint64, strict bool) error {
+	cache, final := chain.StateCopy()
+	return chain.updateEmptyHeadRoundAndPersist(final, cache, references, timestamp, strict)
+}
+
+// VerifC20StrictChecks evaluates the clock/other-chain checks of the strict
+// branch of updateExternal (checkReferenceSanity and determineBestRound) on the
+// stored round named by externalHash.  True = they would not reject.
+func (chain *Chain) VerifC20StrictChecks(externalHash crypto.Hash, roundTime uint64) bool {
+	external, err := chain.persistStore.ReadRound(externalHash)
+	if err != nil || external == nil {
+		return true
+	}
+	ec := chain.node.getOrCreateChain(external.NodeId)
+	if chain.checkReferenceSanity(ec, external, roundTime) != nil {
+		return false
+	}
+	threshold := external.Timestamp + config.SnapshotSyncRoundThreshold*config.SnapshotRoundGap*64
+	best := chain.determineBestRound(roundTime)
+	return !(best != nil && threshold < best.Start)
+}
+
+func (chain *Chain) VerifC20State() (*FinalRound, *CacheRound, map[crypto.Hash]uint64) {
+	links := make(map[crypto.Hash]uint64, len(chain.State.RoundLinks))
+	for k, v := range chain.State.RoundLinks {
+		links[k] = v
+	}
+	cache, final := chain.StateCopy()
+	return final, cache, links
+}
